@@ -27,6 +27,13 @@ def scratch():
         os.makedirs(base, exist_ok=True)
         _scratch = os.path.join(base, f'itree-verif.{os.getpid()}')
         shutil.rmtree(_scratch, ignore_errors=True)
+        # scratch directories of runs that were killed (their atexit handler never ran): owner process no longer exists
+        try:
+            for d in os.listdir(base):
+                if d.startswith('itree-verif.') and d.split('.')[-1].isdigit() and not os.path.exists(f'/proc/{d.split(".")[-1]}'):
+                    shutil.rmtree(os.path.join(base, d), ignore_errors=True)
+        except OSError:
+            pass
         os.makedirs(_scratch)
         if not os.environ.get('VERIF_KEEP_SCRATCH'):
             atexit.register(lambda: shutil.rmtree(_scratch, ignore_errors=True))
